@@ -55,6 +55,17 @@ theorem shipped_constants_consistent : ∀ ch ∈ Gen.allConstGroups, ∀ g ∈ 
   rw [List.all_eq_true] at this
   exact this g hg
 
+/-- **C17 (a message shared by dialects is the very same Go type; enumerated, kernel-decided).** For every message name that occurs
+    in the message lists of several shipped dialects, all of them resolve it (through their alias declarations) to the type
+    defined in one and the same package, under one id — so a value decoded with one dialect is a value of the other. -/
+theorem shipped_messages_shared : ∀ ch ∈ Gen.allMsgGroups, ∀ g ∈ ch, sameDefinition g = true := by
+  have h := Gen.msgs_shared
+  rw [List.all_eq_true] at h
+  intro ch hch g hg
+  have := h ch hch
+  rw [List.all_eq_true] at this
+  exact this g hg
+
 /-- one published value against the regenerated definition of that id in the dialect `common` -/
 def publishedOk (p : Nat × Nat) : Bool :=
   match Gen.commonById.lookup p.1 with
